@@ -5,7 +5,7 @@ patterns over multi-byte texts."""
 from . import core, gen, engine, engprop
 from .core import hexs
 
-THEOREMS = ["C13_sizes_sound", "C13_goback_chars", "C13_exact"]
+THEOREMS = ["C13_sizes_sound", "C13_goback_chars", "C13_exact", "C13_lookbehind_gate"]
 
 
 def lens_check(ctx):
